@@ -223,6 +223,10 @@ var c18Exprs = map[string][]string{
 		`.tzname as $t | .eps | tz($t)`, `.fmt as $f | .eps | format_datetime($f)`, `.k as $k | has($k)`, `.k as $k | pick([$k])`, `.k as $k | .[$k]`,
 		`.k as $k | del(.[$k]) | keys | length`, `.re as $r | [.[] | select(tag == "!!str") | select(test($r))]`, `.eps | tz("UTC")`, `.eps | tz("America/New_York")`,
 		`.k as $k | to_entries | map(select(.key == $k)) | from_entries`, `.sep as $s | "a\($s)b"`, `eval("." + .k)`, `.k as $k | with(.[$k]; . = "w")`,
+		// the same, but the argument is a string LITERAL with an interpolation: it still depends on the document
+		`.re as $r | .name | test("\($r)")`, `.name | test("\(.re)")`, `.re as $r | .name | sub("\($r)", "X")`, `.re as $r | .name | match("\($r)") | .string`,
+		`.re as $r | [.[] | select(tag == "!!str") | select(test("\($r)"))]`, `.sep as $s | .iota | split("\($s)")`, `.sep as $s | .beta | join("\($s)")`,
+		`.k as $k | has("\($k)")`, `.k as $k | pick(["\($k)"])`, `.tzname as $t | .eps | tz("\($t)")`, `.k as $k | .["\($k)"]`, `.name as $n | .name | capture("(?P<x>\($n))") | .x`,
 		`.k as $k | sort_keys(.[$k])`, `.fmt as $f | with_dtf($f; "2021-06-01" | format_datetime("2006"))`, `.k as $k | path(.[$k])`, `.k as $k | setpath([$k]; 0) | .[$k]`,
 		// envsubst in every flavour (C18_UNSET is never set, C18_EMPTY is set to "")
 		`.delta |= envsubst`, `.delta | envsubst`, `.delta |= envsubst(ne)`, `.delta |= envsubst(nu)`, `.delta |= envsubst(ne, nu)`,
